@@ -157,11 +157,48 @@ def rule_git1(A: Analysis, rep):
     rep.check(ok_u, "GIT1", "uses-git = `git rev-parse --git-dir` succeeds", iu.node, "every return of is_used() is that command's verdict, unconditionally",
               "is_used() returns %s" % [(fmt_conj(c), v[:60]) for c, v in rv_u])
     a = argv(dist, "rev-list")
-    rep.check(a == ["'git'", "'rev-list'", "'--count'", dist.params[1], "'^{}'.format(%s)" % dist.params[2]], "GIT1", "rev-list --count <start> ^<ancestor>", dist.node,
-              "", "get_distance runs %s" % a)
+    rep.check(_revlist_counts_start_minus_ancestor(dist, dist.params[1], dist.params[2]), "GIT1", "rev-list --count <start> ^<ancestor>", dist.node,
+              "the only flag is --count and the revision arguments denote `reachable from <start>, not from <ancestor>` (`<start> ^<ancestor>` in either order, or `<ancestor>..<start>`)",
+              "get_distance runs %s" % a)
     r = [x for x in walk_local(dist.node) if isinstance(x, ast.Return)]
     rep.check(len(r) == 1 and norm(r[0].value) == "int(result.stdout.strip())", "GIT1", "distance = printed count", dist.node, "", "get_distance does not return the count printed by git")
     rep.expect_min("GIT1", 8)
+
+
+def _revlist_counts_start_minus_ancestor(fn, start: str, anc: str) -> bool:
+    """GIT1: the argv of get_distance is `git rev-list` + exactly the flag `--count` + revision arguments that denote
+    the set (reachable from start) minus (reachable from ancestor): `start ^anc` in either order, or `anc..start`
+    (git-rev-list(1): `A..B` is shorthand for `^A B`).  Any other flag (`--ancestry-path`, `--first-parent`,
+    `--no-merges`, …) changes the set that is counted."""
+    from ..analysis import strparts
+    for c in walk_local(fn.node):
+        if isinstance(c, ast.Call) and norm(c.func) == "subprocess.run" and c.args and isinstance(c.args[0], ast.List):
+            elts = c.args[0].elts
+            break
+    else:
+        return False
+    if len(elts) < 3 or [norm(x) for x in elts[:2]] != ["'git'", "'rev-list'"]:
+        return False
+
+    def unstr(p: str) -> str:
+        return p[4:-1] if p.startswith("str(") and p.endswith(")") else p
+    flags, revs = [], set()
+    for e in elts[2:]:
+        p = strparts(e) if not isinstance(e, ast.Name) else [e.id]
+        if p is None:
+            return False
+        p = [unstr(x) for x in p]
+        if len(p) == 1 and p[0].startswith("'-"):
+            flags.append(p[0])
+        elif p == [start]:
+            revs.add("+start")
+        elif p == ["'^'", anc]:
+            revs.add("-anc")
+        elif p == [anc, "'..'", start]:
+            revs.update(("+start", "-anc"))
+        else:
+            return False
+    return flags == ["'--count'"] and revs == {"+start", "-anc"}
 
 
 # --------------------------------------------------------------------------- SEL1
